@@ -38,7 +38,7 @@ pub enum Extreme {
     /// theta at lg_k 5 (and 20 in thorough)
     Theta { lg_k: u8, rf: u8, p: u16, n: u32, seed: u64 },
     /// t-digest k = 10
-    TDigest { n: u32, seed: u64, dup: bool },
+    TDigest { n: u32, seed: u64, dup: bool, #[serde(default)] k_sel: u8 },
     /// Frequent Items with map size 8
     Fi { n: u32, seed: u64, w: u64 },
     /// Bloom with 1 bit and with_accuracy extremes
@@ -56,7 +56,7 @@ fn extreme_strategy(thorough: bool) -> impl Strategy<Value = Extreme> {
         3 => (prop_oneof![3 => Just(4u8), 1 => Just(21u8)], 0u8..3, 1u32..=400_000, any::<u64>()).prop_map(|(lg_k, ty, n, seed)| Extreme::Hll { lg_k, ty, n, seed }),
         3 => (cpc_lgs, 0u8..=120, any::<u64>()).prop_map(|(lg_k, lg_n_x4, seed)| Extreme::Cpc { lg_k, lg_n_x4, seed }),
         2 => (theta_lgs, 0u8..4, any::<u16>(), 1u32..=3_000, any::<u64>()).prop_map(|(lg_k, rf, p, n, seed)| Extreme::Theta { lg_k, rf, p, n, seed }),
-        2 => (0u32..=3000, any::<u64>(), any::<bool>()).prop_map(|(n, seed, dup)| Extreme::TDigest { n, seed, dup }),
+        2 => (0u32..=3000, any::<u64>(), any::<bool>(), 0u8..8).prop_map(|(n, seed, dup, k_sel)| Extreme::TDigest { n, seed, dup, k_sel }),
         2 => (0u32..=2000, any::<u64>(), prop_oneof![Just(1u64), 1u64..=1_000_000_000]).prop_map(|(n, seed, w)| Extreme::Fi { n, seed, w }),
         2 => (0u8..6, any::<u64>()).prop_map(|(which, seed)| Extreme::Bloom { which, seed }),
         2 => (0u8..8, any::<u64>()).prop_map(|(ty, seed)| Extreme::CountMin { ty, seed }),
@@ -210,13 +210,23 @@ fn run_extreme(c: &Extreme, info: &mut CaseInfo) -> Result<(), Fail> {
             s.reset();
             touch_theta(&s);
         }
-        Extreme::TDigest { n, seed, dup } => {
-            info.label("tdigest_k=10");
-            let mut t = TDigestMut::new(10);
+        Extreme::TDigest { n, seed, dup, k_sel } => {
+            // both ends of the documented range of k (u16, at least 10)
+            let k = [10u16, 10, 10, 11, 32767, 32768, 65534, 65535][(*k_sel % 8) as usize];
+            info.label(if k == 10 { "tdigest_k=10" } else if k >= 32767 { "tdigest_k>=32767" } else { "tdigest_k=11" });
+            let mut t = TDigestMut::new(k);
             touch_td(&mut t);
             let mut sm = SplitMix(*seed);
             for i in 0..*n {
-                let v = if *dup { (sm.below(3)) as f64 } else { sm.unit() * 1e6 - 5e5 };
+                let v = if *dup {
+                    (sm.below(3)) as f64
+                } else if *seed % 5 == 0 {
+                    // both ends of the finite range
+                    let s = if sm.below(2) == 0 { 1.0 } else { -1.0 };
+                    s * f64::MAX * (0.5 + 0.5 * sm.unit())
+                } else {
+                    sm.unit() * 1e6 - 5e5
+                };
                 t.update(v);
                 if i < 6 || (i + 1).is_power_of_two() {
                     touch_td(&mut t);
